@@ -153,7 +153,10 @@ func ConcurrencyScope(p *an.Prog) *Scope {
 	s.F = p.Reach(s.Roots...)
 	for fn := range s.F {
 		for _, c := range an.Calls(fn, false) {
-			if cal := c.Common().StaticCallee(); cal != nil {
+			if _, isGo := c.(*ssa.Go); isGo {
+				// arguments of a go statement are shared with the spawner only if they are
+			}
+			for _, cal := range p.CalleesAt(c) {
 				s.Sites[cal] = append(s.Sites[cal], c)
 			}
 		}
